@@ -115,6 +115,25 @@ Section Lists.
       + apply skel_mixed_const; assumption.
   Qed.
 
+  (* swapped: value literal [us] first, target [a...] second: every `eqc x a` holds (each slot of the literal
+     against the element type), pointwise backward *)
+  Lemma lit_first_open : forall g a us, clean a = true -> forallb expr_ty us = true ->
+    all1 (fun x => cmp true n (Some g) x a) us = Some true ->
+    exists u', inst (TMixed us) u' /\ clean u' = true /\ skel u' = L (skel a).
+  Proof.
+    intros g a us Ca Eu H. apply all1_true in H. apply forallb_Forall in Eu.
+    assert (Hx : Forall (fun x => exists x', inst x x' /\ clean x' = true /\ skel x' = skel a) us).
+    { apply Forall_forall. intros x Hin. rewrite Forall_forall in H, Eu. apply (B (Some g) x a); auto. }
+    destruct us as [|x0 us0].
+    - exists (TOpen a). repeat split; [apply I_empty; exact Ca | exact Ca].
+    - destruct (complete_const _ _ Hx) as [us' [I [C S]]].
+      assert (Hne : us' <> []) by (inversion I; discriminate).
+      exists (TMixed us'). repeat split.
+      + apply I_mixed; [discriminate | exact I].
+      + apply clean_mixed_intro; assumption.
+      + apply skel_mixed_const; assumption.
+  Qed.
+
   (* expected [ts], supplied literal [us], same length, pointwise forward *)
   Lemma lit_into_mixed : forall g ts us, clean (TMixed ts) = true -> forallb expr_ty us = true ->
     oand (Some (len_ok true ts us)) (all2 (fun x y => cmp true n (Some g) x y) ts us) = Some true ->
@@ -238,13 +257,13 @@ Proof.
            destruct (lhs_unwrap f); [|discriminate].
            destruct (F (Some f) b (TMixed us) Cr Eu H') as [u' [I [C S]]]. done_ex u'.
         -- (* [..] -> [b...] *)
-           apply (lit_into_open n F f b us); auto.
+           apply (lit_first_open n B f b us); auto.
         -- (* [..] -> [t2] *)
            apply (lit_first_mixed n B f us t2); auto.
     + destruct (nonclean_expr_shape u Eu Cu) as [->|[us [-> Eus]]].
       * destruct t; try discriminate.
       * destruct t as [k2 l2| |b|b|t2|k2 v2|p2 r2|n2 b|n2]; try discriminate.
-        -- apply (lit_into_open n F classless b us); auto.
+        -- apply (lit_first_open n B classless b us); auto.
         -- apply (lit_first_mixed n B classless us t2); auto.
 Qed.
 
